@@ -683,6 +683,17 @@ func C01(e *core.Env) {
 				c01case{fNot(fNested("atMost", 1, kidp, fOr(q, cntLeaves[1]))), "quantifier"})
 		}
 	}
+	// many quantified variables in one validation: k sibling nested constraints, then nested-in-nested
+	// (every variable of the alphabet gets to be the one of the enclosing nested constraint)
+	manySiblings := []c01case{}
+	for _, k := range []int{20, 21, 22, 23, 24, 25} {
+		ops := []FForm{}
+		for i := 0; i < k; i++ {
+			ops = append(ops, fNested("all", 0, Pr(fmt.Sprintf("ex.sib%02d", i), false), cntLeaves[1]))
+		}
+		ops = append(ops, fNested("all", 0, kidp, fNested("all", 0, kidp, cntLeaves[0])))
+		manySiblings = append(manySiblings, c01case{fAnd(ops...), "many-variables"})
+	}
 	if e.Quick() {
 		e.Rand.Shuffle(len(qcases), func(i, j int) { qcases[i], qcases[j] = qcases[j], qcases[i] })
 		kept := []c01case{}
@@ -694,6 +705,7 @@ func C01(e *core.Env) {
 		qcases = kept
 	}
 	res.Sample(map[string]any{"stream": "quantifier", "formula": qcases[0].f.String()})
+	qcases = append(qcases, manySiblings...)
 	runC01(e, qg, qcases, "q", 25)
 	res.Note(fmt.Sprintf("quantifier stream: %d formulas, %.1fs", len(qcases), time.Since(t0).Seconds()))
 	t0 = time.Now()
